@@ -315,8 +315,10 @@ Qed.
 (* [wf sepc p]: the structured document p, written with column separator sepc, is a PIN:
    no field contains sepc or NL; every row has the header's columns and at least one protein;
    the first and last character of every line survive strip(); the header has no column
-   "Proteins" before the protein column; the first PSM line does not start with
-   "DefaultDirection"; the optional DefaultDirection line does. *)
+   "Proteins" before the protein column; the first PSM line (if there is one) does not start
+   with "DefaultDirection"; the optional DefaultDirection line does.  The number of PSM rows is
+   not restricted: [rows p = []] (a PIN that is only its header, or header + DefaultDirection
+   line) is well-formed. *)
 Definition wf_row (sepc : Z) (p : pin) (r : pinrow) : Prop :=
   Forall (field_ok sepc) (pre r ++ prots r ++ post r) /\
   length (pre r) = length (hdr_pre p) /\ prots r <> [] /\
@@ -326,7 +328,7 @@ Definition wf_row (sepc : Z) (p : pin) (r : pinrow) : Prop :=
 Definition wf (sepc : Z) (p : pin) : Prop :=
   Forall (field_ok sepc) (hdr p) /\ ~ In PROTEINS (hdr_pre p) /\
   first_ok (hd [] (hdr p)) /\ last_ok (last (hdr p) []) /\
-  Forall (wf_row sepc p) (rows p) /\ rows p <> [] /\
+  Forall (wf_row sepc p) (rows p) /\
   match rows p with
   | r :: _ => prefixb DEFAULTDIRECTION (row_line sepc r) = false
   | [] => True
@@ -504,48 +506,46 @@ Proof.
   pose proof (rows_lines_ok sepc p Hs Hwf) as HRL.
   pose proof (parse_header_ok sepc p Hs Hwf) as HPH.
   pose proof (convert_rows sepc sepp p Hwf) as HCR.
-  destruct Hwf as (HF & Hnp & Hf & Hl & HR & Hne & Hfirst & Hdd).
-  unfold convert_file_sep, render_pin, render_tsv, tsv_lines.
+  destruct Hwf as (HF & Hnp & Hf & Hl & HR & Hfirst & Hdd).
+  unfold convert_file_sep, render_pin, render_tsv, tsv_lines. cbv zeta.
   assert (Forall line_ok (pin_lines sepc p)) as HL.
   { unfold pin_lines. constructor; [exact Hh|]. apply Forall_app. split; [|exact HRL].
     destruct (dd p) as [d|]; [|constructor]. destruct Hdd as (Hp & Hn & Hld).
     constructor; [|constructor]. apply dd_line_ok; assumption. }
   rewrite lines_render by (eapply Forall_impl; [|exact HL]; intros l; apply line_ok_render).
-  unfold pin_lines in *.
-  assert (map (row_line sepc) (rows p) <> []) as Hne' by (destruct (rows p); [congruence|discriminate]).
-  rewrite with_nl_cons by (destruct (dd p); [discriminate|exact Hne']).
-  destruct Hh as (Hhn & Hhf & Hhl).
-  rewrite strip_nl by assumption. rewrite HPH.
-  rewrite render_lines_true. simpl flat_map. rewrite <- app_assoc. simpl.
-  destruct (dd p) as [d|].
-  - destruct Hdd as (Hp & Hn & Hld). simpl app.
-    rewrite with_nl_cons by exact Hne'.
-    pose proof (dd_line_ok d Hp Hn Hld) as (_ & Hdf & _).
-    rewrite strip_nl by assumption. rewrite Hp. simpl app.
-    rewrite (flat_map_strip (fun l => convert_line_sep sepc sepp l (length (hdr_pre p)) (length (hdr p)) ++ [NL])) by exact HRL.
-    rewrite HCR. reflexivity.
-  - simpl app.
-    destruct (with_nl final_nl (map (row_line sepc) (rows p))) as [|l2 more] eqn:EW.
-    { destruct (map (row_line sepc) (rows p)) as [|a [|b l]]; [congruence| |]; simpl in EW; [destruct final_nl|]; discriminate. }
-    assert (prefixb DEFAULTDIRECTION (strip l2) = false) as Hnd.
-    { pose proof (strip_with_nl final_nl _ HRL) as HS. rewrite EW in HS. simpl in HS.
-      destruct (rows p) as [|r rs]; [congruence|]. simpl in HS. injection HS as HS _.
-      rewrite HS. exact Hfirst. }
-    rewrite Hnd.
-    change ((convert_line_sep sepc sepp (strip l2) (length (hdr_pre p)) (length (hdr p)) ++ [NL]) ++
-            flat_map (fun l : str => convert_line_sep sepc sepp (strip l) (length (hdr_pre p)) (length (hdr p)) ++ [NL]) more)
-      with (flat_map (fun l : str => (fun l' => convert_line_sep sepc sepp l' (length (hdr_pre p)) (length (hdr p)) ++ [NL]) (strip l)) (l2 :: more)).
-    rewrite <- EW.
-    rewrite (flat_map_strip (fun l => convert_line_sep sepc sepp l (length (hdr_pre p)) (length (hdr p)) ++ [NL])) by exact HRL.
-    rewrite HCR. reflexivity.
+  (* whatever the final newline: the stripped lines are the lines of the document *)
+  pose proof (strip_with_nl final_nl _ HL) as HS.
+  unfold pin_lines in HS |- *.
+  destruct (with_nl final_nl
+              (join sepc (hdr p) :: (match dd p with Some d => [d] | None => [] end) ++ map (row_line sepc) (rows p)))
+    as [|h' rest'] eqn:EW; [discriminate HS|].
+  cbn [map] in HS. injection HS as HSh HSr.
+  rewrite HSh, HPH. rewrite render_lines_true. cbn [flat_map].
+  set (F := fun l : str => convert_line_sep sepc sepp l (length (hdr_pre p)) (length (hdr p)) ++ [NL]) in *.
+  destruct rest' as [|l2 more].
+  - (* only the header: no DefaultDirection line, no PSM *)
+    cbn [map] in HSr. symmetry in HSr. apply app_eq_nil in HSr. destruct HSr as [_ HSr].
+    apply map_eq_nil in HSr. rewrite HSr. cbn [map flat_map]. rewrite app_nil_r. reflexivity.
+  - cbn [map] in HSr.
+    change (flat_map (fun l : str => convert_line_sep sepc sepp (strip l) (length (hdr_pre p)) (length (hdr p)) ++ [NL]) more)
+      with (flat_map (fun l : str => F (strip l)) more).
+    rewrite <- (flat_map_map strip F).
+    destruct (dd p) as [d|].
+    + (* the second line is the DefaultDirection line *)
+      destruct Hdd as (Hp & _). cbn [app] in HSr. injection HSr as HS2 HSm.
+      rewrite HS2, Hp, HSm, HCR. cbn [app]. rewrite <- app_assoc. reflexivity.
+    + (* the second line is the first PSM *)
+      cbn [app] in HSr. destruct (rows p) as [|r rs]; [discriminate HSr|].
+      cbn [map] in HSr. injection HSr as HS2 HSm.
+      rewrite HS2, Hfirst, HSm. rewrite <- HCR. cbn [map flat_map]. unfold F.
+      rewrite <- !app_assoc. reflexivity.
 Qed.
 
 Lemma wf_tsv_pin sepc sepp p : wf sepc p -> out_ok sepc sepp p -> wf sepc (tsv_pin sepp p).
 Proof.
-  intros (HF & Hnp & Hf & Hl & HR & Hne & Hfirst & Hdd) (Hsc & Hsn & Hout).
+  intros (HF & Hnp & Hf & Hl & HR & Hfirst & Hdd) (Hsc & Hsn & Hout).
   unfold wf. simpl. repeat split; try assumption.
   - apply Forall_map. eapply Forall_impl; [|exact HR]. intros r Hr. apply wf_tsv_row; assumption.
-  - destruct (rows p); [congruence|discriminate].
   - destruct (rows p) as [|r rs]; [exact I|]. exact Hout.
 Qed.
 
@@ -572,29 +572,53 @@ Qed.
 Lemma nfields_count sepc l : nfields_sep sepc l = S (zcount sepc l).
 Proof. apply split_length. Qed.
 
+(* a text is reported valid exactly when it has a first line (the header), its second line -- if
+   there is one -- does not start with "DefaultDirection", and every line after the header has the
+   header's number of separators.  A text that is only its header is valid. *)
 Theorem is_valid_iff sepc txt :
   is_valid_sep sepc txt = Ok true <->
-  exists h l2 more, lines_of txt = h :: l2 :: more /\
-    prefixb DEFAULTDIRECTION l2 = false /\
-    Forall (fun l => zcount sepc l = zcount sepc h) (l2 :: more).
+  exists h rest, lines_of txt = h :: rest /\
+    match rest with l2 :: _ => prefixb DEFAULTDIRECTION l2 = false | [] => True end /\
+    Forall (fun l => zcount sepc l = zcount sepc h) rest.
 Proof.
   unfold is_valid_sep. destruct (lines_of txt) as [|h [|l2 more]].
-  - split; [discriminate|intros (? & ? & ? & ? & _); discriminate].
-  - split; [discriminate|intros (? & ? & ? & ? & _); discriminate].
+  - split; [discriminate|intros (? & ? & ? & _); discriminate].
+  - split; [|reflexivity]. intros _. exists h, []. split; [reflexivity|]. split; [exact I|constructor].
   - destruct (prefixb DEFAULTDIRECTION l2) eqn:Ep.
-    { split; [discriminate|]. intros (h' & l2' & more' & E & Hp & _). injection E as <- <- <-. congruence. }
+    { split; [discriminate|]. intros (h' & rest' & E & Hp & _). injection E as <- <-. congruence. }
     rewrite !nfields_count.
     destruct (Nat.eqb_spec (S (zcount sepc l2)) (S (zcount sepc h))) as [E2|E2]; simpl.
     + split.
-      * intros H. injection H as H. exists h, l2, more. split; [reflexivity|]. split; [exact Ep|].
+      * intros H. injection H as H. exists h, (l2 :: more). split; [reflexivity|]. split; [exact Ep|].
         constructor; [lia|]. apply Forall_forall. intros l Hl.
         rewrite forallb_forall in H. specialize (H l Hl). rewrite !nfields_count in H.
         apply Nat.eqb_eq in H. lia.
-      * intros (h' & l2' & more' & E & _ & HF). injection E as <- <- <-. f_equal.
+      * intros (h' & rest' & E & _ & HF). injection E as <- <-. f_equal.
         apply forallb_forall. intros l Hl. inversion HF as [|? ? _ HF']; subst.
         rewrite Forall_forall in HF'. rewrite !nfields_count. apply Nat.eqb_eq. rewrite (HF' l Hl). reflexivity.
-    + split; [discriminate|]. intros (h' & l2' & more' & E & _ & HF). injection E as <- <- <-.
+    + split; [discriminate|]. intros (h' & rest' & E & _ & HF). injection E as <- <-.
       inversion HF; subst. lia.
+Qed.
+
+(* is_valid_tsv answers (does not raise) on every text but the empty one *)
+Lemma lines_aux_nil cur s : lines_aux cur s = [] -> cur = [] /\ s = [].
+Proof.
+  revert cur; induction s as [|c s IH]; simpl; intros cur H.
+  - destruct cur; [split; reflexivity|discriminate].
+  - destruct (c =? NL); [discriminate|]. apply IH in H. destruct H as [H _]. discriminate.
+Qed.
+
+Theorem is_valid_decided sepc txt :
+  (txt <> [] -> exists b, is_valid_sep sepc txt = Ok b) /\
+  (txt = [] -> is_valid_sep sepc txt = Err EStopIteration).
+Proof.
+  split.
+  - intros Hne. unfold is_valid_sep. destruct (lines_of txt) as [|h [|l2 more]] eqn:EL.
+    + apply lines_aux_nil in EL. destruct EL as [_ EL]. congruence.
+    + eexists; reflexivity.
+    + destruct (prefixb DEFAULTDIRECTION l2); [eexists; reflexivity|].
+      destruct (negb _); eexists; reflexivity.
+  - intros ->. reflexivity.
 Qed.
 
 Lemma with_nl_true ls : with_nl true ls = map (fun l => l ++ [NL]) ls.
@@ -620,10 +644,13 @@ Proof.
   { unfold pin_lines. simpl. constructor; assumption. }
   rewrite lines_render by (eapply Forall_impl; [|exact HL]; intros l; apply line_ok_render).
   rewrite with_nl_true. unfold pin_lines. simpl dd. cbn [app map].
-  destruct Hwt as (HF & Hnp & Hf & Hl & HR & Hne & Hfirst & _).
-  destruct (rows (tsv_pin sepp p)) as [|r rs] eqn:ER; [congruence|].
-  cbn [map]. eexists _, _, _. split; [reflexivity|]. split.
-  - replace (row_line sepc r ++ [NL]) with (row_line sepc r ++ NL :: []) by reflexivity.
+  destruct Hwt as (HF & Hnp & Hf & Hl & HR & Hfirst & _).
+  destruct (rows (tsv_pin sepp p)) as [|r rs] eqn:ER.
+  { (* no PSM: the table is its header line *)
+    cbn [map]. eexists _, []. split; [reflexivity|]. split; [exact I|constructor]. }
+  cbn [map]. eexists _, (_ :: _). split; [reflexivity|]. split.
+  - change (prefixb DEFAULTDIRECTION (row_line sepc r ++ [NL]) = false).
+    replace (row_line sepc r ++ [NL]) with (row_line sepc r ++ NL :: []) by reflexivity.
     rewrite prefixb_field by exact nl_not_in_dd. exact Hfirst.
   - assert (Forall (fun r' => wf_row sepc (tsv_pin sepp p) r' /\ length (prots r') = 1%nat) (r :: rs)) as HR1.
     { rewrite <- ER. simpl. apply Forall_map. destruct Hwf as (_ & _ & _ & _ & HR0 & _).
@@ -685,9 +712,9 @@ Proof. intros Hwf. unfold convert_file. apply convert_file_ok; [discriminate|exa
 
 Lemma is_valid_default_iff txt :
   is_valid txt = Ok true <->
-  exists h l2 more, lines_of txt = h :: l2 :: more /\
-    prefixb DEFAULTDIRECTION l2 = false /\
-    Forall (fun l => zcount TAB l = zcount TAB h) (l2 :: more).
+  exists h rest, lines_of txt = h :: rest /\
+    match rest with l2 :: _ => prefixb DEFAULTDIRECTION l2 = false | [] => True end /\
+    Forall (fun l => zcount TAB l = zcount TAB h) rest.
 Proof. unfold is_valid. apply is_valid_iff. Qed.
 
 Lemma default_out_ok p : wf TAB p ->
